@@ -10,6 +10,7 @@ import (
 	"io"
 	"os"
 	"path/filepath"
+	"sort"
 	"strings"
 	"syscall"
 )
@@ -382,7 +383,12 @@ func enumerateFaults(evs []*Ev, rng *SplitMix, thorough, errors, torn bool) []Fa
 					offs[1+rng.Intn(e.Len-1)] = true
 				}
 			}
+			var sorted []int
 			for n := range offs {
+				sorted = append(sorted, n)
+			}
+			sort.Ints(sorted)
+			for _, n := range sorted {
 				if n >= 1 && n < e.Len {
 					fs = append(fs, Fault{K: e.K, Act: fmt.Sprintf("torn:%d", n), Op: e.Op})
 				}
